@@ -19,7 +19,7 @@ PROPERTIES = ["C30", "C36"]
 GSPEC = "Grain"
 ALL_DEFECTS = ["UnclaimedActivate", "DeleteBeforeRemove", "ForeignRemove", "RepublishActive"]
 # the defect branches the code under test still has (known findings); fixed ones are removed from this list
-CODE_DEFECTS = ["ForeignRemove", "RepublishActive"]
+CODE_DEFECTS = ["UnclaimedActivate", "ForeignRemove", "RepublishActive"]
 # tables on which a single defect breaks the repaired design (TLC counterexample = witness behaviour, replayed on the real code)
 WITNESS = {"UnclaimedActivate": ("sss", "abc"), "DeleteBeforeRemove": ("ssp", "aba"), "RepublishActive": ("sips", "aaab"),
            "ForeignRemove": ("sis", "bac")}
@@ -362,5 +362,249 @@ def run(ctx, pid):
     return run_c36(ctx, pid)
 
 
+# ------------------------------------------------------------------------------------------------ C36
+SSPEC = "Cluster"
+S_CODE_DEFECTS = ["NonAtomicPublish"]
+
+
+def stable(orgs, l0, newlead, changes):
+    ts = ["t%d" % (i + 1) for i in range(len(orgs))]
+    return {"threads": ts, "orgs": {t: o.upper() for t, o in zip(ts, orgs)}, "lead": {n: l0.upper() for n in "ABC"},
+            "newlead": newlead.upper(), "changes": changes, "name": "%s_%s%s%d" % (orgs, l0, newlead, changes)}
+
+
+def scfg(tb, defects, invariants=(), view=True, spec="Spec", extra=""):
+    o = [tb["orgs"].get("t%d" % i, "-") for i in range(1, 4)]
+    lines = ["SPECIFICATION " + spec, "CONSTANTS", '  Nodes = {"A", "B", "C"}',
+             "  Threads = {%s}" % ", ".join('"%s"' % t for t in tb["threads"])]
+    lines += ['  O%d = "%s"' % (i + 1, o[i]) for i in range(3)]
+    lines += ['  L%s = "%s"' % (n, tb["lead"][n]) for n in "ABC"]
+    lines += ["  Org <- OrgT", "  Lead0 <- LeadT", '  NewLead = "%s"' % tb["newlead"], "  MaxChanges = %d" % tb["changes"], "  MaxHops = 2",
+              "  MaxTries = 1", "  Defects = {%s}" % ", ".join('"%s"' % d for d in defects)]
+    if view:
+        lines.append("VIEW View0")
+    if invariants:
+        lines.append("INVARIANTS " + " ".join(invariants))
+    lines.append("CHECK_DEADLOCK FALSE")
+    if extra:
+        lines.append(extra)
+    return "\n".join(lines) + "\n"
+
+
+def s_steps(lasts):
+    return [{"t": x["t"], "a": x["a"], "pc": x["pc"], "at": x["at"], "n": x.get("n", "-"), "m": x.get("m", "-")} for x in lasts]
+
+
+def classify_c36(hrows, line_idx):
+    """NonAtomicPublish on the real trace: the start that makes two instances run at once happened on a node OTHER than the node
+    of the instance already running, and on both nodes the precondition read (ActorExists, as answered by the store) had said
+    'no record' before the node started its instance - i.e. both passed the non-atomic check-then-publish window."""
+    e = hrows[line_idx]
+    if e["ev"] != "start":
+        return []
+    running = {}
+    for r in hrows[:line_idx]:
+        if r["ev"] == "start":
+            running[r["inst"]] = r
+        elif r["ev"] == "stop":
+            running.pop(r["inst"], None)
+    if len(running) != 1:
+        return []
+    other = next(iter(running.values()))
+    if other["n"] == e["n"]:
+        return []
+
+    def passed(start_row):
+        i = hrows.index(start_row)
+        prior = [r for r in hrows[:i] if r["ev"] == "op" and r["op"] == "ActorExists" and r["n"] == start_row["n"]]
+        return bool(prior) and prior[-1]["res"] == 0
+    return ["NonAtomicPublish"] if passed(e) and passed(other) else []
+
+
 def run_c36(ctx, pid):
-    raise vlib.Infra("C36 not implemented yet")
+    quick = ctx.quick
+    rng = ctx.rng
+    pool = concurrent.futures.ThreadPoolExecutor(max_workers=4)
+    exe = ctx.build("grainreg")
+
+    def tlc(tb, defects, label, must_hold=False, **kw):
+        cfgname = "s_%s_%s.cfg" % (tb["name"], label)
+        inv = kw.pop("invariants", ("TypeOK", "OneSingleton"))
+        p = write(ctx, cfgname, scfg(tb, defects, invariants=inv, view=kw.pop("view", True)))
+        fn = ctx.tlc_must_hold if must_hold else ctx.tlc
+        return fn(SSPEC, cfgname, module="MC_Singleton", files={cfgname: p}, name=cfgname[:-4], timeout=kw.pop("timeout", 1500), **kw)
+
+    tables = [stable("ac", "a", "c", 2), stable("aa", "a", "b", 2), stable("bc", "a", "b", 3), stable("abc", "a", "b", 2)]
+    if not quick:
+        tables += [stable("abc", "a", "c", 3), stable("acc", "a", "c", 3), stable("bbc", "a", "c", 3), stable("cab", "b", "a", 3)]
+    fut_design = [pool.submit(tlc, tb, [], "repaired", must_hold=True, workers=2) for tb in tables]
+    fut_asis = pool.submit(tlc, tables[0], ["NonAtomicPublish"], "asis", expect_fail=True, workers=2)
+
+    nsel = 150 if quick else 2000
+    nsim = 150 if quick else 2000
+
+    def dump(tb):
+        return tlc(tb, S_CODE_DEFECTS, "code-dump", invariants=("TypeOK",), view=False, dump_dot=True, workers=2)
+
+    def sim(tb):
+        cfgname = "s_%s_sim.cfg" % tb["name"]
+        p = write(ctx, cfgname, scfg(tb, S_CODE_DEFECTS, invariants=(), view=False, spec="GSpec", extra="CONSTRAINT Emit"))
+        r = ctx.tlc(SSPEC, cfgname, module="Gen_Singleton", files={cfgname: p}, simulate="num=%d" % nsim, depth=60, deadlock_check=False,
+                    workers=1, timeout=900, name=cfgname[:-4])
+        return vlib.parse_sim_behaviours(r.out)
+
+    fut_dump = {tb["name"]: (tb, pool.submit(dump, tb)) for tb in tables}
+    fut_sim = {tb["name"]: (tb, pool.submit(sim, tb)) for tb in tables}
+    behaviours, per_table, samples, edge_total = [], collections.Counter(), [], 0
+    for name, (tb, f) in fut_dump.items():
+        d = f.result()
+        g = tlagraph.Graph.load(os.path.join(d.rundir, "graph.dot"))
+        walks, left = g.edge_cover(rng)
+        if left:
+            raise vlib.Infra("edge cover incomplete (%s)" % name)
+        edge_total += len(walks)
+        bs = []
+        for w in walks:
+            steps = s_steps([dict(_LAST.findall(g.state(s["to"])["last"])) for s in w])
+            if any(s["pc"] == "cut" for s in steps):
+                continue      # beyond the hop bound of the model the real call keeps forwarding until its deadline
+            bs.append({"orgs": tb["orgs"], "lead": tb["lead"], "steps": steps, "tag": name})
+        bs = vlib.sample(rng, bs, nsel)
+        behaviours += bs
+        per_table[name] += len(bs)
+        samples.append({name: [[s["t"], s["a"], s["pc"]] for s in bs[0]["steps"]][:30]})
+    for name, (tb, f) in fut_sim.items():
+        hs = [s_steps(h) for h in f.result()]
+        bs = [{"orgs": tb["orgs"], "lead": tb["lead"], "steps": h, "tag": name} for h in hs if not any(s["pc"] == "cut" for s in h)]
+        if len(bs) < nsim // 8:
+            raise vlib.Infra("simulation produced too few behaviours for %s (%d)" % (name, len(bs)))
+        behaviours += bs
+        per_table[name] += len(bs)
+    # the counterexample of the code model is the witness of the known finding
+    r = fut_asis.result()
+    if r.violated != "OneSingleton":
+        raise vlib.Infra("Singleton.tla with Defects={NonAtomicPublish} no longer violates OneSingleton (stale Defects table?)")
+    wsteps = []
+    for m in re.finditer(r'/\\ last = (\[.*?\])\n', r.out, re.S):
+        last = dict(_LAST.findall(m.group(1)))
+        if last.get("a") and last["a"] != "init":
+            wsteps.append(last)
+    if len(wsteps) < 6:
+        raise vlib.Infra("could not read the counterexample of Singleton.tla Defects={NonAtomicPublish}")
+    behaviours.append({"orgs": tables[0]["orgs"], "lead": tables[0]["lead"], "steps": s_steps(wsteps), "tag": "witness-NonAtomicPublish"})
+    per_table["witness-NonAtomicPublish"] += 1
+    bfile = ctx.tmp("behaviours.ndjson")
+    vlib.write_ndjson(bfile, behaviours)
+    ctx.log("behaviours: %d (edge-cover walks available %d) %s" % (len(behaviours), edge_total, dict(per_table)))
+
+    trace = ctx.tmp("trace.ndjson")
+    p = ctx.run([exe, "single-replay", bfile, trace], timeout=2400)
+    rstats = json.loads(p.stdout.strip().splitlines()[-1])
+    ctx.log("replay: %s" % rstats)
+    etrace = ctx.tmp("explore.ndjson")
+    pe = ctx.run([exe, "single-explore", str(200 if quick else 5000), str(ctx.seed), etrace], timeout=2400)
+    estats = json.loads(pe.stdout.strip().splitlines()[-1])
+    ctx.log("explore: %s" % estats)
+
+    def monitor(path, label):
+        r = ctx.tlc(SSPEC, "Mon_Singleton.cfg", module="Mon_Singleton", dfs=True, files={"trace.ndjson": path}, timeout=2400, heap="6g",
+                    name="mon-" + label)
+        n = sum(1 for _ in open(path))
+        if r.depth != n + 1:
+            raise vlib.Infra("monitor consumed %d of %d trace lines (%s)" % (r.depth - 1, n, label))
+        mm = vlib.tuples(r.out, "MISMATCH")
+        if len(mm) != r.out.count('"MISMATCH"'):
+            raise vlib.Infra("unparsed MISMATCH lines in monitor output (%s)" % label)
+        if any("HARNESS" in str(m[2]) for m in mm):
+            raise vlib.Infra("harness bookkeeping disagrees with the monitor (%s): %s" % (label, mm[0]))
+        return [(int(m[1]), m[2], m[3]) for m in mm], n
+
+    def conformance(rows, tb):
+        sub = [r for a, b in split_behaviours(rows) if rows[a].get("tag", "") == tb["name"] for r in rows[a:b]]
+        if not sub:
+            return tb["name"], None, 0
+        sub.append({"ev": "New", "id": "", "tag": "", "orgs": {}, "lead": {}})
+        path = ctx.tmp("conf-%s.ndjson" % tb["name"])
+        vlib.write_ndjson(path, sub)
+        cfgname = "s_%s_trace.cfg" % tb["name"]
+        pc = write(ctx, cfgname, scfg(tb, S_CODE_DEFECTS, invariants=(), view=False, spec="TSpec"))
+        r = ctx.tlc(SSPEC, cfgname, module="Trace_Singleton", dfs=True, files={cfgname: pc, "trace.ndjson": path}, timeout=2400, heap="6g",
+                    expect_fail=True, name=cfgname[:-4])
+        if r.error:
+            raise vlib.Infra("conformance spec error (%s): %s" % (tb["name"], r.error[:600]))
+        return tb["name"], (None if r.depth == len(sub) + 1 else "rejected at line %d of %d: %s" % (r.depth, len(sub), json.dumps(sub[min(r.depth, len(sub)) - 1])[:300])), len(sub)
+
+    rows = vlib.read_ndjson(trace)
+    fut_mon = [pool.submit(monitor, trace, "replay"), pool.submit(monitor, etrace, "explore")]
+    fut_conf = [pool.submit(conformance, rows, tb) for tb in tables]
+    results = []
+    events = 0
+    for label, path, f in (("replay", trace, fut_mon[0]), ("explore", etrace, fut_mon[1])):
+        mm, n = f.result()
+        events += n
+        results.append((label, path, mm))
+    drift_conf = {}
+    for f in fut_conf:
+        name, d, nl = f.result()
+        if d:
+            drift_conf[name] = d
+    for f in fut_design:
+        f.result()
+    drift_by = collections.Counter()
+    for a, b in split_behaviours(rows):
+        if any(r["ev"] == "drift" for r in rows[a:b]):
+            drift_by[rows[a].get("tag", "")] += 1
+
+    known_hits = collections.Counter()
+    unknown = []
+    for label, path, mm in results:
+        if not mm:
+            continue
+        trows = vlib.read_ndjson(path)
+        spans = split_behaviours(trows)
+        for (line, what, sid) in mm:
+            a, b = next(((a, b) for a, b in spans if a < line <= b), (0, len(trows)))
+            h = trows[a:b]
+            cls = [c for c in classify_c36(h, line - 1 - a) if ctx.is_known(c)]
+            if cls:
+                for c in set(cls):
+                    known_hits[c] += 1
+                    ctx.report_known(c, ctx.is_known(c)["what"])
+            else:
+                unknown.append((label, path, line, what, h))
+
+    def finish(violations=0):
+        st, tr = ctx.states()
+        cov = {"states": st, "transitions": tr, "traces_validated_against_impl": rstats["behaviours"] + estats["behaviours"],
+               "samples": samples[:3], "evaluations": rstats["behaviours"] + estats["behaviours"],
+               "distinct_nontrivial": len({json.dumps(b["steps"]) for b in behaviours}),
+               "rule": "executions = puppet replays on 3 real actor systems of walks sampled from an edge cover of the state graphs of "
+                       "Singleton.tla (code model; tables %s = caller origins, initial coordinator, new coordinator, view changes) and TLC "
+                       "random walks, plus seeded random schedules over the real gates with random view changes; distinct_nontrivial = "
+                       "distinct replayed step sequences (2-3 concurrent SpawnSingleton calls)" % ",".join(t["name"] for t in tables),
+               "atomic_steps_replayed": rstats["steps"] + estats["steps"], "replay_drift": sum(drift_by.values()),
+               "replay_drift_by_table": dict(drift_by), "replay_drift_at": rstats.get("drift_at"), "conformance_drift": drift_conf or None,
+               "events_judged": events, "not_quiescent": rstats["not_quiescent"] + estats["not_quiescent"],
+               "known_finding_hits": dict(known_hits), "code_defects_modelled": S_CODE_DEFECTS, "exhaustive": False}
+        ctx.evidence("model_checking", cov,
+                     ["one singleton name, no role; 3 nodes; 2-3 concurrent SpawnSingleton calls; one leadership change propagating node by node",
+                      "membership views are scripted per node through a fake olric client under goakt's real cluster engine (Members is real code)",
+                      "RemoteSpawn is delivered in-process on the caller's goroutine to the target's real remoteSpawnHandler",
+                      "running = between PreStart and PostStop of the singleton actor as reported by the actor itself; nobody stops singletons during a history",
+                      "forwarding chains longer than 2 hops (mutually forwarding views) are cut in the model and not replayed"],
+                     violations=violations)
+
+    if unknown:
+        label, path, line, what, h = unknown[0]
+        snippet = ctx.tmp("violation.ndjson")
+        vlib.write_ndjson(snippet, h)
+        rp = ctx.save_replay("seed%d" % ctx.seed, snippet)
+        finish(violations=len(unknown))
+        raise vlib.Violation(pid, rp, "%s: %s (trace line %d of %s, singleton %s; %d unexplained mismatches)" %
+                             (label, what, line, os.path.basename(path), h[0].get("id"), len(unknown)))
+    if drift_conf:
+        ctx.log("conformance drift (not a verdict): %s" % drift_conf)
+    if drift_by:
+        ctx.log("replay drift (not a verdict): %s of %d behaviours: %s" % (dict(drift_by), rstats["behaviours"], rstats.get("drift_at")))
+    pool.shutdown()
+    finish()
